@@ -665,6 +665,7 @@ impl Scenario for Pipe {
         st.add("fault.backpressure_pending", ps.backpressure);
         st.add("fault.reader_starved_pending", ps.starved);
         st.add("fault.write_error", ps.werr_fired as u64);
+        st.note_schedule(crate::rng::mix64(es.order_hash ^ ps.wcalls as u64 ^ ((ps.rcalls as u64) << 32)));
         st.add("sched.task_switches", es.switches);
         st.add("sched.spurious_polls", es.spurious);
         if plan.pipe.indent.is_some() {
